@@ -1262,6 +1262,87 @@ def imaginary_counts(run, repo):
     return n
 
 
+def caller_arrays(run, repo):
+    """The SAME array of wavenumbers - a numpy array of the caller, one imaginary entry in it - is handed to two
+    models: first to one with a substitute (through the constructor, or assigned through the public attribute of a
+    model that held other wavenumbers before), then, with no getter asked in between, to one that drops imaginary
+    modes.  Each model must report what a model built from a fresh list of the same numbers reports (the second one
+    the harmonic-oscillator values of the real modes only), the first one still does so when asked after the second
+    was built, and the caller's array holds afterwards what it held before."""
+    n = 0
+    names = ('w_imag', 'w_real', 'w_real2')
+    for cname in ('HarmonicVib', 'QRRHOVib'):
+        ci = repo.cls(SM + '.vib.' + cname)
+        owner, fn = filter_anchor(repo, ci)
+        quantities = [('ZPE', {}), ('UoRT', 'T'), ('SoR', 'T'), ('CvoR', 'T')]
+        if cname == 'HarmonicVib':
+            quantities.append(('q', 'T'))
+        for dtype in ('float', 'caller'):
+            for path in ('assigned to', 'constructor of'):
+                I = Interp(repo, order=WitnessOrder(dict(WAVENUMBERS)))
+                D = I.D
+                T = D.sym('T')
+                ws = D.sym('w_sub')
+
+                def fresh_list():
+                    v = ListV([D.sym(k) for k in names])
+                    v.dtype = 'caller'
+                    return v
+                # what a model of these numbers reports, from lists of their own, before anything else happened
+                ref = {}
+                for sub_v, tag in ((ws, 'sub'), (None, 'drop')):
+                    r_ = I.construct(ci, [], {'vib_wavenumbers': fresh_list(), 'imaginary_substitute': sub_v},
+                                     name='ref_' + tag)
+                    if isinstance(r_, Raised):
+                        raise Unsupported('%s([imaginary, real, real]) raises %s' % (cname, r_.exc))
+                    ref[tag] = {q: I.call_method(r_, 'get_' + q, [], {'T': T} if kw else {})
+                                for q, kw in quantities}
+                given = ListV([D.sym(k) for k in names])
+                given.is_array = True
+                given.dtype = dtype
+                before = list(given.items)
+                key = 'one numpy array (%s) for two models, %s the first' % (
+                    'float64' if dtype == 'float' else 'element type of the caller', path)
+                if path == 'assigned to':
+                    a = I.construct(ci, [], {'vib_wavenumbers': ListV([D.sym('w3')]), 'imaginary_substitute': ws},
+                                    name='first')
+                    if not isinstance(a, Raised):
+                        set_public(I, a, 'vib_wavenumbers', given)          # first.vib_wavenumbers = given
+                else:
+                    a = I.construct(ci, [], {'vib_wavenumbers': given, 'imaginary_substitute': ws}, name='first')
+                # ... and no getter is asked before the same array goes into the second model
+                b = I.construct(ci, [], {'vib_wavenumbers': given, 'imaginary_substitute': None}, name='second')
+                if isinstance(a, Raised) or isinstance(b, Raised):
+                    run.fail('EFFECT.argument', cname + '.vib_wavenumbers', key,
+                             'building two models from one array of [imaginary, real, real] wavenumbers raises %s'
+                             % (a.exc if isinstance(a, Raised) else b.exc), owner.module, fn)
+                    n += 2 * len(quantities) + 1
+                    continue
+                run.check(len(given.items) == len(before) and all(same(x, y) for x, y in zip(given.items, before)),
+                          'EFFECT.argument', cname + '.vib_wavenumbers', key + ': the caller\'s array afterwards',
+                          'the array of wavenumbers the caller handed over holds %s afterwards, it held %s: the '
+                          'model writes into the argument object (the substitute in the place of the imaginary '
+                          'entry), and whatever the caller builds from the array next is built from other numbers'
+                          % (show(ListV(list(given.items))), show(ListV(before))), owner.module, fn,
+                          sample='w = np.array([imag, real, real]); %s(w, substitute); w is unchanged' % cname)
+                n += 1
+                for who, obj, tag, what in (
+                        ('second model (no substitute)', b, 'drop', 'the values of its real modes only'),
+                        ('first model (substitute) asked after the second was built', a, 'sub',
+                         'the values of the real modes and of the substitute')):
+                    for q, kw in quantities:
+                        got = I.call_method(obj, 'get_' + q, [], {'T': T} if kw else {})
+                        run.check(same(got, ref[tag][q]), 'EFFECT.argument', '%s.get_%s' % (cname, q),
+                                  '%s: %s' % (key, who),
+                                  'two models were given the same array of [imaginary, real, real] wavenumbers, the '
+                                  'first with a substitute, the second without: get_%s of the %s is %s, a model '
+                                  'built from a list of the same numbers reports %s (%s) - what a model reports '
+                                  'depends on which models were built from the array before'
+                                  % (q, who, show(got, 160), show(ref[tag][q], 160), what), owner.module, fn)
+                        n += 1
+    return n
+
+
 def cached_fields(run, repo):
     n = 0
     for cname, extra in (('HarmonicVib', {}), ('QRRHOVib', {})):
@@ -1336,6 +1417,7 @@ def cached_fields(run, repo):
                           owner.module, fn)
                 n += 1
     n += imaginary_counts(run, repo)
+    n += caller_arrays(run, repo)
     # electronic degeneracy 2*spin+1, refreshed by the spin setter
     ci = repo.cls(SM + '.elec.GroundStateElec')
     I = Interp(repo)
@@ -2091,6 +2173,25 @@ MUTANTS = [
         return self.get_quantity(method_name='get_FoRT',''', '''        S_ele = 0
 
         return self.get_quantity(method_name='get_FoRT',''')]},
+    # black-box round 7
+    {'name': 'vectorised filter writes the substitute into the caller\'s float array (np.asarray does not copy)',
+     'expect': ('EFFECT.argument', 'vib_wavenumbers'),
+     'edits': [(V, '''    wavenumbers_out = []
+    for wavenumber in wavenumbers:
+        if wavenumber > 0.:
+            # Real wavenumbers always added
+            wavenumbers_out.append(wavenumber)
+        elif substitute is not None:
+            # Substitute added if imaginary frequency encountered
+            wavenumbers_out.append(substitute)
+    return np.array(wavenumbers_out)
+''', '''    wavenumbers_out = np.asarray(wavenumbers, dtype=float)
+    imaginary = wavenumbers_out <= 0.
+    if substitute is None:
+        return wavenumbers_out[~imaginary]
+    wavenumbers_out[imaginary] = substitute
+    return wavenumbers_out
+''')]},
 ]
 _UNIT_MASS = "        unit_mass = self.molecular_weight *\\\n            c.convert_unit(initial='g', final='kg')/c.Na\n"
 EQUIV = [
